@@ -47,6 +47,8 @@ type Property struct {
 	Customs     func(tier string) []Custom
 	// KnownPredicates maps predicate names usable in known_findings.json to matchers.
 	KnownPredicates map[string]func(v *Violation) bool
+	// HangS overrides the per-case watchdog (seconds) for properties whose cases are whole searches.
+	HangS int
 }
 
 var registry = map[string]*Property{}
